@@ -6,6 +6,18 @@ claimed = subprocess.run([os.path.join(V, "check"), "--list"], stdout=subprocess
 
 # id -> (category, level text, level note, technique, design ref)
 T = {
+ "C09": ("exploration",
+         "Model-based property testing (rapid state machine) over the whole ByteBuffer API with boundary-class integer arguments (MinInt..MaxInt), compared after every call with a three-slice reference model and the live-slot list; panics are failures; shrunk counterexample on failure. Bounded search, not a proof.",
+         "Trusts the three-slice model in harness/buffers/c09_bytebuffer_test.go; Discard/SavedSlot only with live slots, Reserve <= 1 MiB, io doubles obey the io contracts (see DESIGN.md §7).",
+         "stateful property-based testing against a reference model (rapid)", "DESIGN.md §4 C09"),
+ "C11": ("exploration",
+         "Model-based property testing (rapid) over every class of accepted size (powers of two, other page multiples, rounded sizes): claim offsets and lengths, mirror aliasing through a 2*Size view of the mapping, committed bytes intact, used+free==Size, mappings and backing file gone after Destroy. Bounded search.",
+         "Trusts the ring model in harness/buffers/c11_mirrored_test.go, /proc/self/maps and pointer arithmetic on the mapping; amounts are non-negative.",
+         "stateful property-based testing against a ring model (rapid)", "DESIGN.md §4 C11"),
+ "C20": ("exploration",
+         "Model-based property testing (rapid) of ByteBuffer+SlotSequencer and ByteBuffer+SlotOffsetter: generated push/pop/discard interleavings with duplicates, negatives, capacity overruns, never-drained regimes; SavedSlot(slot) and Saved() compared with a seq->bytes model after every step. Bounded search.",
+         "Trusts the model in harness/buffers/c20_slots_test.go; Save is immediately followed by Push and a popped slot is discarded before the next Pop (documented workflow).",
+         "stateful property-based testing against a reference model (rapid)", "DESIGN.md §4 C20"),
  "C10": ("exploration",
          "Model-based property testing (rapid state machine): thousands of generated Claim/Commit/Consume/Head/Reset histories on buffers of many sizes, compared step by step with a FIFO-of-chunks reference model that carries physical offsets; shrunk counterexample on failure. Bounded search, not a proof: holds on every generated history.",
          "Trusts the reference model in harness/buffers/c10_bip_test.go, Go's unsafe pointer arithmetic for offsets, and rapid's generators; amounts are non-negative as the property quantifies.",
